@@ -254,6 +254,17 @@ theorem good_listInnerSet {R h} (s : St R h) (c i j : Nat) (str : String) (hc : 
   · exact Good.refl s
   · exact Good.refl s
 
+theorem good_valueInnerSet {R h} (s : St R h) (p i j : Nat) (str : String) (hp : R.n p) (hl : p < h.nN)
+    (hk : (h.node p).kind = .prop) : Good R h (valueInnerSet h p i j str).1 := by
+  unfold valueInnerSet
+  split
+  · exact Good.refl s
+  · rename_i c hv
+    split
+    · exact Good.refl s
+    · rename_i hlt
+      exact good_listInnerSet s c i j str (vals_in s hp hl hk hv) (by omega)
+
 theorem good_newObj {R h} (s : St R h) (k : Kind) (name : String) (attrs : List String) (vals : List Lit) :
     Good R h (newObj h k name attrs vals).1 := by
   unfold newObj
